@@ -450,5 +450,5 @@ func TestC15(t *testing.T) {
 	if !complete {
 		return
 	}
-	c15Sub.rapidCheck(t, pickTier(4000, 30000), c15Gen)
+	c15Sub.rapidCheck(t, pickTier(4000, 100000), c15Gen)
 }
